@@ -1,9 +1,726 @@
-//! C07 — (stub; not built yet)
+//! C07 — FiducciaMattheyses never increases the cut nor breaks its weight cap.
+//!
+//! op:  `fm <wt:i|f> <max_imbalance: none|f64 bits hex> <max_bad> <max_passes: none|N>
+//!          <max_moves: none|N> <rows> {<deg> {<nbr> <w>}} <m> <ids…> <l> <weights…>`
+//!      (`wt`: vertex weights given to the implementation as `i64` or as integer-valued `f64`;
+//!      the matrix is `rows x rows`, CSR, rows strictly ascending.)
+//!      The recorded op line carries the implementation's canonical line after `=>`: bucket
+//!      iteration order is per-`HashSet` random, so on tie-sensitive cases the model driver
+//!      searches for a choice sequence reproducing exactly that line (membership).
+//!      A stale `=> …` suffix in corpus/replay lines is ignored and recomputed.
+//! out: `ok <cap> | <ids> | <moves_per_pass> | <rewinded_moves_per_pass>` (`-` = empty list)
+//!      | `ok-empty` | `lenmismatch` | `bionly` | `panic …`
 
 use crate::common::*;
+use coupe::sprs::CsMat;
+use coupe::Partition as _;
 
-pub fn generate(_ctx: &mut Ctx) {}
+#[derive(Clone, Debug)]
+struct Case {
+    f64w: bool,
+    mi: Option<f64>,
+    mb: usize,
+    mp: Option<usize>,
+    mm: Option<usize>,
+    rows: Vec<Vec<(usize, i64)>>,
+    ids: Vec<usize>,
+    ws: Vec<i64>,
+}
+
+fn opt(o: &Option<usize>) -> String {
+    match o {
+        Some(v) => v.to_string(),
+        None => "none".into(),
+    }
+}
+
+fn format_op(c: &Case) -> String {
+    let mut s = format!(
+        "fm {} {} {} {} {} {}",
+        if c.f64w { "f" } else { "i" },
+        match c.mi {
+            Some(x) => format!("{:x}", x.to_bits()),
+            None => "none".into(),
+        },
+        c.mb,
+        opt(&c.mp),
+        opt(&c.mm),
+        c.rows.len()
+    );
+    for r in &c.rows {
+        s.push_str(&format!(" {}", r.len()));
+        for (u, w) in r {
+            s.push_str(&format!(" {} {}", u, w));
+        }
+    }
+    s.push_str(&format!(" {}", c.ids.len()));
+    for i in &c.ids {
+        s.push_str(&format!(" {}", i));
+    }
+    s.push_str(&format!(" {}", c.ws.len()));
+    for w in &c.ws {
+        s.push_str(&format!(" {}", w));
+    }
+    s
+}
+
+fn parse_opt(t: &str) -> Option<Option<usize>> {
+    if t == "none" {
+        Some(None)
+    } else {
+        t.parse().ok().map(Some)
+    }
+}
+
+fn parse_op(op: &str) -> Option<Case> {
+    let base = op.split("=>").next()?;
+    let mut it = base.split_whitespace();
+    if it.next()? != "fm" {
+        return None;
+    }
+    let f64w = match it.next()? {
+        "f" => true,
+        "i" => false,
+        _ => return None,
+    };
+    let mi = match it.next()? {
+        "none" => None,
+        t => Some(f64::from_bits(u64::from_str_radix(t, 16).ok()?)),
+    };
+    let mb: usize = it.next()?.parse().ok()?;
+    let mp = parse_opt(it.next()?)?;
+    let mm = parse_opt(it.next()?)?;
+    let n: usize = it.next()?.parse().ok()?;
+    let mut rows = Vec::with_capacity(n);
+    for _ in 0..n {
+        let d: usize = it.next()?.parse().ok()?;
+        let mut r = Vec::with_capacity(d);
+        for _ in 0..d {
+            let u: usize = it.next()?.parse().ok()?;
+            let w: i64 = it.next()?.parse().ok()?;
+            r.push((u, w));
+        }
+        rows.push(r);
+    }
+    let m: usize = it.next()?.parse().ok()?;
+    let mut ids = Vec::with_capacity(m);
+    for _ in 0..m {
+        ids.push(it.next()?.parse().ok()?);
+    }
+    let l: usize = it.next()?.parse().ok()?;
+    let mut ws = Vec::with_capacity(l);
+    for _ in 0..l {
+        ws.push(it.next()?.parse().ok()?);
+    }
+    if it.next().is_some() {
+        return None;
+    }
+    // sprs invariants: square matrix, indices in range, rows strictly ascending
+    for r in &rows {
+        for (k, (u, _)) in r.iter().enumerate() {
+            if *u >= n || (k > 0 && r[k - 1].0 >= *u) {
+                return None;
+            }
+        }
+    }
+    Some(Case { f64w, mi, mb, mp, mm, rows, ids, ws })
+}
+
+fn list<T: std::fmt::Display>(xs: &[T]) -> String {
+    if xs.is_empty() {
+        "-".into()
+    } else {
+        join(xs)
+    }
+}
+
+/// What one run of the implementation returned.
+enum Ran {
+    Ok { ids: Vec<usize>, moves: Vec<usize>, rewound: Vec<usize> },
+    Err(String),
+    Panic(String),
+}
+
+fn run_impl(c: &Case) -> Ran {
+    let n = c.rows.len();
+    let mut indptr = vec![0usize];
+    let mut indices = vec![];
+    let mut data = vec![];
+    for r in &c.rows {
+        for (u, w) in r {
+            indices.push(*u);
+            data.push(*w);
+        }
+        indptr.push(indices.len());
+    }
+    let mut ids = c.ids.clone();
+    let res = catch(|| {
+        let mat: CsMat<i64> = CsMat::new((n, n), indptr, indices, data);
+        let mut fm = coupe::FiducciaMattheyses {
+            max_imbalance: c.mi,
+            max_bad_move_in_a_row: c.mb,
+            max_passes: c.mp,
+            max_moves_per_pass: c.mm,
+        };
+        if c.f64w {
+            let w: Vec<f64> = c.ws.iter().map(|&x| x as f64).collect();
+            fm.partition(&mut ids, (mat.view(), &w[..]))
+        } else {
+            fm.partition(&mut ids, (mat.view(), &c.ws[..]))
+        }
+    });
+    match res {
+        Caught::Ok(Ok(md)) => Ran::Ok {
+            ids,
+            moves: md.moves_per_pass.clone(),
+            rewound: md.rewinded_moves_per_pass.clone(),
+        },
+        Caught::Ok(Err(coupe::Error::InputLenMismatch { .. })) => Ran::Err("lenmismatch".into()),
+        Caught::Ok(Err(coupe::Error::BiPartitioningOnly)) => Ran::Err("bionly".into()),
+        Caught::Ok(Err(e)) => Ran::Err(format!("err {:?}", e)),
+        // assert_eq! messages span several lines; the protocol is line based
+        Caught::Panic(m) => Ran::Panic(m.split_whitespace().collect::<Vec<_>>().join(" ")),
+        Caught::Hang => Ran::Panic("hang".into()),
+    }
+}
+
+fn loads(ws: &[i64], ids: &[usize]) -> [i64; 2] {
+    let mut l = [0i64; 2];
+    for (w, &i) in ws.iter().zip(ids) {
+        if i < 2 {
+            l[i] += *w;
+        }
+    }
+    l
+}
+
+/// The threshold of the cap test as an integer (`cap < target` on integer targets), computed
+/// with the expression of the source; `None` = the `unwrap` of the conversion fails.
+fn cap_threshold(c: &Case) -> Option<i64> {
+    let l = loads(&c.ws, &c.ids);
+    match c.mi {
+        None => Some(l[0].max(l[1])),
+        Some(mi) => {
+            let total = (l[0] + l[1]) as f64;
+            let ideal = total / 2.0;
+            let x = ideal + mi * ideal;
+            const BIG: i64 = 1 << 62;
+            if c.f64w {
+                Some(if x.is_nan() || x >= BIG as f64 {
+                    BIG
+                } else if x <= -(BIG as f64) {
+                    -BIG
+                } else {
+                    x.floor() as i64
+                })
+            } else if x >= -9223372036854775808.0 && x < 9223372036854775808.0 {
+                Some(x as i64)
+            } else {
+                None
+            }
+        }
+    }
+}
+
+/// Brute-force edge cut: every stored entry whose end points lie in different parts, halved
+/// (the matrix is symmetric on valid inputs).
+fn cut2(rows: &[Vec<(usize, i64)>], ids: &[usize]) -> i64 {
+    let mut s = 0i64;
+    for (v, r) in rows.iter().enumerate() {
+        for (u, w) in r {
+            if ids[v] != ids[*u] {
+                s += *w;
+            }
+        }
+    }
+    s
+}
+
+#[derive(PartialEq)]
+enum Validity {
+    Valid,
+    /// outside the property's quantifier; the string names why
+    Malformed(&'static str),
+}
+
+fn validity(c: &Case) -> Validity {
+    let n = c.rows.len();
+    if c.ids.len() != n || c.ws.len() != n {
+        return Validity::Malformed("len");
+    }
+    if c.ids.iter().any(|&i| i > 1) {
+        return Validity::Malformed("parts");
+    }
+    if c.ws.iter().any(|&w| w < 0) {
+        return Validity::Malformed("neg-vertex-weight");
+    }
+    for (v, r) in c.rows.iter().enumerate() {
+        for (u, w) in r {
+            if *u == v {
+                return Validity::Malformed("self-loop");
+            }
+            if *w < 0 {
+                return Validity::Malformed("neg-edge");
+            }
+            let back = c.rows[*u].iter().find(|(x, _)| *x == v).map(|(_, w)| *w);
+            if back != Some(*w) {
+                return Validity::Malformed("asymmetric");
+            }
+        }
+    }
+    if cap_threshold(c).is_none() {
+        return Validity::Malformed("cap-not-representable");
+    }
+    if let Some(mi) = c.mi {
+        if !mi.is_finite() {
+            return Validity::Malformed("imbalance-not-finite");
+        }
+    }
+    Validity::Valid
+}
+
+/// The property, stated on the implementation's output (independent of the model).
+fn oracle(c: &Case, ids: &[usize], moves: &[usize], rewound: &[usize]) -> Option<(&'static str, String)> {
+    let n = c.ids.len();
+    if ids.len() != n {
+        return Some(("fm-length-changed", format!("{} ids in, {} out", n, ids.len())));
+    }
+    if ids.iter().any(|&i| i > 1) {
+        return Some(("fm-id-out-of-range", format!("ids {:?}", ids)));
+    }
+    let c_in = cut2(&c.rows, &c.ids);
+    let c_out = cut2(&c.rows, ids);
+    if c_out > c_in {
+        return Some(("fm-cut-increased", format!("cut {} -> {} (doubled values)", c_in, c_out)));
+    }
+    let cap = cap_threshold(c).unwrap();
+    if let Some(mi) = c.mi {
+        // the threshold is what the statement names: (1 + max_imbalance) x half the total
+        let l = loads(&c.ws, &c.ids);
+        let real = (1.0 + mi) * ((l[0] + l[1]) as f64) / 2.0;
+        if ((cap as f64) - real).abs() > 1.0 + 1e-9 * real.abs() && real.abs() < 4e18 {
+            return Some(("fm-cap-formula", format!("cap {} vs (1+mi)*total/2 = {}", cap, real)));
+        }
+    }
+    let l_in = loads(&c.ws, &c.ids);
+    let l_out = loads(&c.ws, ids);
+    for k in 0..2 {
+        if l_out[k] > l_in[k].max(cap) {
+            return Some((
+                "fm-cap-broken",
+                format!("part {} weighs {} > max(input {}, cap {})", k, l_out[k], l_in[k], cap),
+            ));
+        }
+    }
+    if moves.len() != rewound.len() {
+        return Some(("fm-meta-lengths", format!("{} vs {}", moves.len(), rewound.len())));
+    }
+    if let Some(mp) = c.mp {
+        if moves.len() > mp {
+            return Some(("fm-meta-passes", format!("{} passes > max_passes {}", moves.len(), mp)));
+        }
+    }
+    let mut kept = 0usize;
+    for (m, r) in moves.iter().zip(rewound) {
+        if let Some(mm) = c.mm {
+            if *m > mm {
+                return Some(("fm-meta-moves", format!("{} moves > max_moves_per_pass {}", m, mm)));
+            }
+        }
+        if r > m {
+            return Some(("fm-meta-rewound", format!("rewound {} > moves {}", r, m)));
+        }
+        kept += m - r;
+    }
+    let changed = ids.iter().zip(&c.ids).filter(|(a, b)| a != b).count();
+    if changed > kept {
+        return Some(("fm-meta-changed", format!("{} vertices relabelled, {} moves kept", changed, kept)));
+    }
+    None
+}
 
 pub fn run_op(ctx: &mut Ctx, op: &str) {
-    ctx.record(op.to_string(), "bad-op".into(), false);
+    let Some(c) = parse_op(op) else {
+        ctx.record(op.to_string(), "bad-op".into(), false);
+        return;
+    };
+    let base = format_op(&c);
+    let valid = validity(&c);
+    let runs = ctx.budget(3, 4);
+    let mut seen: Vec<String> = vec![];
+    for _ in 0..runs {
+        let ran = run_impl(&c);
+        let (out, verdict, nontrivial) = match &ran {
+            Ran::Ok { ids, moves, rewound } => {
+                if c.ids.is_empty() {
+                    ("ok-empty".to_string(), None, false)
+                } else {
+                    let cap = cap_threshold(&c).unwrap_or(0);
+                    let out = format!("ok {} | {} | {} | {}", cap, list(ids), list(moves), list(rewound));
+                    let v = if valid == Validity::Valid { oracle(&c, ids, moves, rewound) } else { None };
+                    let nt = valid == Validity::Valid
+                        && c.ids.len() >= 2
+                        && c.rows.iter().any(|r| !r.is_empty())
+                        && moves.iter().sum::<usize>() > 0;
+                    (out, v.map(|(s, w)| (s.to_string(), w)), nt)
+                }
+            }
+            Ran::Err(e) => {
+                let v = match (e.as_str(), &valid) {
+                    ("lenmismatch", Validity::Malformed("len")) => None,
+                    ("bionly", Validity::Malformed("parts")) => None,
+                    _ => Some(("fm-unexpected-error".to_string(), format!("{} on {:?} input", e, match &valid {
+                        Validity::Valid => "valid",
+                        Validity::Malformed(w) => w,
+                    }))),
+                };
+                (e.clone(), v, false)
+            }
+            Ran::Panic(m) => {
+                let v = if valid == Validity::Valid {
+                    Some(("panic".to_string(), format!("{} [{}]", m, panic_sig(m))))
+                } else {
+                    None
+                };
+                (format!("panic {}", m), v, false)
+            }
+        };
+        if seen.contains(&out) {
+            continue;
+        }
+        seen.push(out.clone());
+        ctx.count(&format!("out:{}", out.split(' ').next().unwrap_or("")));
+        if let Ran::Ok { moves, .. } = &ran {
+            ctx.count(&format!("passes:{}", moves.len().min(4)));
+        }
+        let idx = ctx.record(format!("{} => {}", base, out), out, nontrivial);
+        if let Some((sig, what)) = verdict {
+            ctx.fail(idx, &sig, what);
+        }
+    }
+    match &valid {
+        Validity::Valid => ctx.count("input:valid"),
+        Validity::Malformed(w) => ctx.count(&format!("input:malformed:{}", w)),
+    }
+    ctx.count(if seen.len() > 1 { "hash-order:outputs-differ-between-runs" } else { "hash-order:same-output-in-all-runs" });
+}
+
+// ------------------------------------------------------------------ generator
+
+type Edges = Vec<(usize, usize, i64)>;
+
+fn rows_of(n: usize, edges: &Edges) -> Vec<Vec<(usize, i64)>> {
+    let mut rows: Vec<Vec<(usize, i64)>> = vec![vec![]; n];
+    for &(u, v, w) in edges {
+        if u != v && !rows[u].iter().any(|(x, _)| *x == v) {
+            rows[u].push((v, w));
+            rows[v].push((u, w));
+        }
+    }
+    for r in rows.iter_mut() {
+        r.sort();
+    }
+    rows
+}
+
+fn gen_graph(ctx: &mut Ctx, max_n: usize) -> (usize, Edges, &'static str) {
+    let wmode = ctx.rng.usize(4);
+    let ew = |rng: &mut Rng| match wmode {
+        0 => 1,
+        1 => rng.range(1, 3),
+        2 => rng.range(1, 1000),
+        _ => rng.range(0, 2),
+    };
+    let shape = ctx.rng.usize(8);
+    let mut edges: Edges = vec![];
+    match shape {
+        0 | 1 => {
+            let n = 1 + ctx.rng.usize(max_n);
+            let den = *ctx.rng.pick(&[15u64, 30, 60]);
+            for u in 0..n {
+                for v in 0..u {
+                    if ctx.rng.chance(den, 100) {
+                        edges.push((u, v, ew(&mut ctx.rng)));
+                    }
+                }
+            }
+            (n, edges, "random")
+        }
+        2 | 3 => {
+            let a = 1 + ctx.rng.usize(5);
+            let b = 1 + ctx.rng.usize((max_n / a).max(1).min(6));
+            for i in 0..a {
+                for j in 0..b {
+                    if i + 1 < a {
+                        edges.push((i * b + j, (i + 1) * b + j, ew(&mut ctx.rng)));
+                    }
+                    if j + 1 < b {
+                        edges.push((i * b + j, i * b + j + 1, ew(&mut ctx.rng)));
+                    }
+                }
+            }
+            (a * b, edges, "grid")
+        }
+        4 => {
+            // two blocks without any edge between them
+            let n1 = 1 + ctx.rng.usize(max_n / 2);
+            let n2 = 1 + ctx.rng.usize(max_n / 2);
+            for u in 0..n1 + n2 {
+                for v in 0..u {
+                    if (u < n1) == (v < n1) && ctx.rng.chance(50, 100) {
+                        edges.push((u, v, ew(&mut ctx.rng)));
+                    }
+                }
+            }
+            (n1 + n2, edges, "disconnected")
+        }
+        5 => {
+            // a random graph on some of the vertices, the others are isolated
+            let n = 2 + ctx.rng.usize(max_n - 1);
+            let live: Vec<bool> = (0..n).map(|_| ctx.rng.chance(60, 100)).collect();
+            for u in 0..n {
+                for v in 0..u {
+                    if live[u] && live[v] && ctx.rng.chance(40, 100) {
+                        edges.push((u, v, ew(&mut ctx.rng)));
+                    }
+                }
+            }
+            (n, edges, "isolated")
+        }
+        6 => {
+            let n = 2 + ctx.rng.usize(max_n - 1);
+            let kind = ctx.rng.usize(3);
+            for u in 1..n {
+                match kind {
+                    0 => edges.push((u, u - 1, ew(&mut ctx.rng))),
+                    1 => edges.push((u, 0, ew(&mut ctx.rng))),
+                    _ => {
+                        edges.push((u, u - 1, ew(&mut ctx.rng)));
+                        if u == n - 1 && n > 2 {
+                            edges.push((u, 0, ew(&mut ctx.rng)));
+                        }
+                    }
+                }
+            }
+            (n, edges, "path-star-cycle")
+        }
+        _ => {
+            let n = 1 + ctx.rng.usize(max_n.min(8));
+            for u in 0..n {
+                for v in 0..u {
+                    edges.push((u, v, ew(&mut ctx.rng)));
+                }
+            }
+            (n, edges, "complete")
+        }
+    }
+}
+
+fn gen_weights(ctx: &mut Ctx, n: usize, tie_free: bool) -> (Vec<i64>, &'static str) {
+    if tie_free {
+        return ((0..n).map(|_| ctx.rng.range(1, 1_000_000_000)).collect(), "vw-wide");
+    }
+    match ctx.rng.usize(4) {
+        0 => (vec![1; n], "vw-unit"),
+        1 => ((0..n).map(|_| ctx.rng.range(1, 3)).collect(), "vw-small"),
+        2 => ((0..n).map(|_| ctx.rng.range(0, 2)).collect(), "vw-zeros"),
+        _ => {
+            let mut w: Vec<i64> = (0..n).map(|_| ctx.rng.range(1, 5)).collect();
+            let k = ctx.rng.usize(n);
+            w[k] = ctx.rng.range(50, 500);
+            (w, "vw-dominant")
+        }
+    }
+}
+
+fn gen_ids(ctx: &mut Ctx, n: usize) -> (Vec<usize>, &'static str) {
+    match ctx.rng.usize(8) {
+        0 => (vec![0; n], "ids-all0"),
+        1 => (vec![1; n], "ids-all1"),
+        2 => ((0..n).map(|i| (i >= n / 2) as usize).collect(), "ids-halves"),
+        3 => ((0..n).map(|i| i % 2).collect(), "ids-alternating"),
+        _ => ((0..n).map(|_| ctx.rng.usize(2)).collect(), "ids-random"),
+    }
+}
+
+fn gen_params(ctx: &mut Ctx, n: usize) -> (Option<f64>, usize, Option<usize>, Option<usize>) {
+    let mi = match ctx.rng.usize(12) {
+        0 | 1 | 2 => None,
+        3 => Some(0.0),
+        4 => Some(0.05),
+        5 => Some(0.1),
+        6 => Some(0.25),
+        7 => Some(0.5),
+        8 => Some(1.0),
+        9 => Some(3.0),
+        10 => Some(-0.5),
+        _ => Some(ctx.rng.below(64) as f64 / 64.0),
+    };
+    let mb = match ctx.rng.usize(6) {
+        0 => 0,
+        1 => 1,
+        2 => 2,
+        3 => n,
+        4 => usize::MAX,
+        _ => ctx.rng.usize(5),
+    };
+    let mp = match ctx.rng.usize(6) {
+        0 | 1 => None,
+        2 => Some(0),
+        3 => Some(1),
+        4 => Some(2),
+        _ => Some(1 + ctx.rng.usize(10)),
+    };
+    let mm = match ctx.rng.usize(7) {
+        0 | 1 | 2 => None,
+        3 => Some(0),
+        4 => Some(1),
+        5 => Some(n),
+        _ => Some(ctx.rng.usize(n + 2)),
+    };
+    (mi, mb, mp, mm)
+}
+
+fn gen_case(ctx: &mut Ctx, max_n: usize, tie_free: bool) -> Case {
+    let (n, edges, shape) = gen_graph(ctx, max_n);
+    let (ws, wm) = gen_weights(ctx, n, tie_free);
+    let (ids, im) = gen_ids(ctx, n);
+    let (mi, mb, mp, mm) = gen_params(ctx, n);
+    ctx.count(&format!("shape:{}", shape));
+    ctx.count(wm);
+    ctx.count(im);
+    ctx.count(if mi.is_some() { "max_imbalance:some" } else { "max_imbalance:none" });
+    ctx.count(if mp.is_some() { "max_passes:some" } else { "max_passes:none" });
+    ctx.count(if mm.is_some() { "max_moves:some" } else { "max_moves:none" });
+    let f64w = ctx.rng.chance(1, 3);
+    ctx.count(if f64w { "weights:f64" } else { "weights:i64" });
+    Case { f64w, mi, mb, mp, mm, rows: rows_of(n, &edges), ids, ws }
+}
+
+pub fn generate(ctx: &mut Ctx) {
+    // (1) exhaustive: every symmetric graph on 3 vertices with edge weights in {absent,1,2},
+    //     every two-way partition, two weight vectors, four parameter settings
+    let settings: [(Option<f64>, usize, Option<usize>, Option<usize>); 4] = [
+        (None, 0, None, None),
+        (None, 2, None, None),
+        (Some(0.5), 1, None, None),
+        (Some(1.0), 1, Some(1), Some(1)),
+    ];
+    for code in 0..27usize {
+        let (a, b, cc) = (code % 3, code / 3 % 3, code / 9);
+        let mut edges: Edges = vec![];
+        for (k, (u, v)) in [(a, (1, 0)), (b, (2, 0)), (cc, (2, 1))].iter().map(|(w, e)| (*w, *e)) {
+            if k > 0 {
+                edges.push((u, v, k as i64));
+            }
+        }
+        for mask in 0..8usize {
+            for ws in [[1i64, 1, 1], [1, 2, 3]] {
+                for (mi, mb, mp, mm) in settings {
+                    let c = Case {
+                        f64w: false,
+                        mi,
+                        mb,
+                        mp,
+                        mm,
+                        rows: rows_of(3, &edges),
+                        ids: (0..3).map(|i| mask >> i & 1).collect(),
+                        ws: ws.to_vec(),
+                    };
+                    ctx.count("stream:exhaustive3");
+                    run_op(ctx, &format_op(&c));
+                }
+            }
+        }
+    }
+    ctx.notes.push(
+        "exhaustive sub-space: all symmetric graphs on 3 vertices with edge weights in {absent,1,2} x all 8 two-way \
+         partitions x weights {[1,1,1],[1,2,3]} x 4 parameter settings; every case is run several times (fresh HashSet \
+         hashers) and every distinct output is recorded as its own case"
+            .into(),
+    );
+    // (2) tie-free stream (wide vertex weights): exact comparison with the model
+    for _ in 0..ctx.budget(700, 14000) {
+        let max_n = if ctx.quick() { 16 } else { 28 };
+        let c = gen_case(ctx, max_n, true);
+        ctx.count("stream:tie-free");
+        run_op(ctx, &format_op(&c));
+    }
+    // (3) tie-heavy stream (unit / small weights): membership by bounded search; kept small
+    for _ in 0..ctx.budget(300, 5000) {
+        let max_n = 3 + ctx.rng.usize(8);
+        let c = gen_case(ctx, max_n, false);
+        ctx.count("stream:tie-heavy");
+        run_op(ctx, &format_op(&c));
+    }
+    // (4) malformed stream: outside the quantifier; outcomes are compared with the model and counted,
+    //     the oracle is not applied
+    for _ in 0..ctx.budget(120, 1500) {
+        let mut c = gen_case(ctx, 10, true);
+        let n = c.ids.len();
+        let kind = ctx.rng.usize(7);
+        match kind {
+            0 => {
+                let k = ctx.rng.usize(n);
+                c.ids[k] = 2 + ctx.rng.usize(3);
+            }
+            1 => {
+                if ctx.rng.chance(1, 2) {
+                    c.ws.pop();
+                } else {
+                    c.ws.push(1);
+                }
+            }
+            2 => {
+                if ctx.rng.chance(1, 2) {
+                    c.ids.pop();
+                    c.ws.pop();
+                } else {
+                    c.ids.push(0);
+                    c.ws.push(1);
+                }
+            }
+            3 => {
+                // asymmetric: change or drop one direction of one edge
+                let cand: Vec<usize> = (0..n).filter(|&v| !c.rows[v].is_empty()).collect();
+                if !cand.is_empty() {
+                    let v = *ctx.rng.pick(&cand);
+                    let k = ctx.rng.usize(c.rows[v].len());
+                    if ctx.rng.chance(1, 2) {
+                        c.rows[v][k].1 += ctx.rng.range(1, 5);
+                    } else {
+                        c.rows[v].remove(k);
+                    }
+                }
+            }
+            4 => {
+                // negative edge weights (kept symmetric)
+                for v in 0..n {
+                    for k in 0..c.rows[v].len() {
+                        let u = c.rows[v][k].0;
+                        if u < v && ctx.rng.chance(1, 2) {
+                            let w = -ctx.rng.range(1, 9);
+                            c.rows[v][k].1 = w;
+                            if let Some(e) = c.rows[u].iter_mut().find(|e| e.0 == v) {
+                                e.1 = w;
+                            }
+                        }
+                    }
+                }
+            }
+            5 => {
+                let v = ctx.rng.usize(n);
+                c.rows[v].push((v, ctx.rng.range(1, 5)));
+                c.rows[v].sort();
+            }
+            _ => {
+                c.mi = Some(*ctx.rng.pick(&[f64::NAN, f64::INFINITY, 1e300, -1e300, f64::NEG_INFINITY]));
+            }
+        }
+        ctx.count("stream:malformed");
+        run_op(ctx, &format_op(&c));
+    }
+    // (5) the empty input
+    let c = Case { f64w: false, mi: None, mb: 0, mp: None, mm: None, rows: vec![], ids: vec![], ws: vec![] };
+    run_op(ctx, &format_op(&c));
 }
